@@ -149,6 +149,10 @@ def gen_case(rng, backend, boundary=False, mode="X"):
     allow_inf = backend == "duckdb"      # SQLite: CAST('Infinity' AS float8) is 0.0 -> log2 raises (loud), see DESIGN
     spec = G.gen_spec(rng, mode, boundary=boundary, allow_inf=allow_inf,
                       multi_exact=(not boundary and rng.random() < 0.3))
+    # link type: two input tables for link_only / link_and_dedupe (TF from the concatenation of both);
+    # retain flags: a quarter of the models run with Splink's defaults (no intermediate columns to read)
+    spec["link_type"] = rng.choice(["dedupe_only", "dedupe_only", "link_only", "link_and_dedupe"])
+    retain = boundary or rng.random() < 0.75
     rows = X.gen_data(rng)
     lookups = X.gen_lookups(rng, spec, rows)
     rules = rng.choice([["1=1"], ["1=1"], ["l.a = r.a", "l.b = r.b", "substr(l.c,1,1) = substr(r.c,1,1)"],
@@ -160,8 +164,9 @@ def gen_case(rng, backend, boundary=False, mode="X"):
     # waterfall_chart raises KeyError when a level's TF column is not an input column of its comparison
     # (value_l/value_r lookup) - loud and outside the property: no chart requested for such models
     foreign_tf = any(lv["tf_col"] and lv["tf_col"] not in c.get("cols", [c["name"]]) for c in spec["comparisons"] for lv in c["levels"])
-    return {"spec": spec, "rows": rows, "lookups": lookups, "rules": rules, "backend": backend,
-            "thr_w": thr_w, "thr_p": thr_p, "waterfall": (rng.random() < 0.6) and not foreign_tf}
+    return {"spec": spec, "rows": rows, "lookups": lookups, "rules": rules, "backend": backend, "retain": retain,
+            "split": rng.randint(2, max(2, len(rows) - 2)),
+            "thr_w": thr_w, "thr_p": thr_p, "waterfall": (rng.random() < 0.6) and not foreign_tf and retain}
 
 
 def gen_exact_case(rng, backend):
@@ -355,6 +360,9 @@ def correspondence(ctx: Ctx):
                         "pairs": len(impl["pairs"]), "tf_cols": spec["tf_cols"], "lookups": sorted(case["lookups"])})
         ctx.cov["evaluations"] += max(0, len(impl["pairs"]) - 1)
         ctx.hist("backend", case["backend"])
+        ctx.hist("link_type", spec["link_type"])
+        ctx.hist("retain_flags", "both on" if case.get("retain", True) else "splink defaults")
+        ctx.hist("waterfall_checked", impl["wf"] is not None)
         ctx.hist("n_comparisons", len(spec["comparisons"]))
         for c in spec["comparisons"]:
             if "cols" in c:
@@ -382,8 +390,14 @@ def correspondence(ctx: Ctx):
                 ctx.hist("score_kind", "inf" if info["py"]["score"] == "inf" else "finite")
             else:
                 ctx.hist("score_kind", "null")
-        ctx.obligation("waterfall log2 records add up to match_weight", impl["wf_py_ok"])
-        if not impl["wf_py_ok"]:
+        bad_rows = [i["pair"] for i in infos if i["bad_num"]]
+        ctx.obligation("engine output and waterfall records are numbers (no None / NaN / -inf, no leaked columns)", not bad_rows)
+        if bad_rows:
+            ctx.violation("predict() / waterfall_chart produced None, NaN or -inf where a number is required (or columns that the retain "
+                          "flags switch off)", {"case": case, "pairs": bad_rows[:5]}, {"bad_number": True, "backend": case["backend"]})
+        if impl["wf"] is not None:
+            ctx.obligation("waterfall log2 records add up to match_weight", impl["wf_py_ok"])
+        if impl["wf"] is not None and not impl["wf_py_ok"]:
             ctx.violation("waterfall_chart records do not add up to the match weight", {"case": case},
                           {"waterfall_sum": True, "backend": case["backend"]})
     for e in errs:
@@ -481,7 +495,10 @@ def run(ctx: Ctx):
         "T: seeded settings (1-4 comparisons, 2-5 levels out of null/exact/levenshtein/custom SQL/else, built through "
         "CustomComparison, library comparisons and raw dictionaries; dyadic m,u so that Python's float m/u is exact; TF on "
         "exact and fuzzy levels, weights, minimum-u, disable_tf_exact_match_detection; u=0; thresholds by weight/probability; "
-        "DuckDB and SQLite dialects): one skeleton obligation each. X: seeded data x models x thresholds; a case is "
+        "DuckDB and SQLite dialects; all dedupe_only - the scoring stages do not depend on the link type): one skeleton obligation each. "
+        "X: link types dedupe_only (one table), link_only and link_and_dedupe (two tables, TF from their concatenation); retain flags both on "
+        "(3/4 of the models: every gamma_/bf_/bf_tf_adj_/tf_ column compared) or Splink's defaults (1/4: only match_weight, match_probability and "
+        "the kept-row sets; the intermediate columns must be absent); waterfall_chart on ~45% of the models; seeded data x models x thresholds; a case is "
         "non-trivial when it has >=3 scored pairs, >=2 distinct outcome vectors and a pair on which >=2 levels of one "
         "comparison are TRUE; distinct by full case.")
     ctx.trusted += [
